@@ -64,6 +64,10 @@ func c04Forms() []addrForm {
 		addrForm{Name: "xff-two-lines-rev", Peer: "192.0.2.1:443", XFF: []string{"10.0.0.2", "10.0.0.1"}},
 		addrForm{Name: "xff-equals-proxy-peer", Peer: "10.0.0.1:443", XFF: []string{"10.0.0.2"}},
 		addrForm{Name: "peer-other-port", Peer: "10.0.0.1:1"},
+		// long proxy chains: the client is the first element however many follow
+		addrForm{Name: "xff12=10.0.0.1,11-proxies", Peer: "192.0.2.1:443", XFF: []string{"10.0.0.1, 192.0.2.11, 192.0.2.12, 192.0.2.13, 192.0.2.14, 192.0.2.15, 192.0.2.16, 192.0.2.17, 192.0.2.18, 192.0.2.19, 192.0.2.20, 192.0.2.21"}},
+		addrForm{Name: "xff12=10.0.0.2,11-proxies", Peer: "192.0.2.1:443", XFF: []string{"10.0.0.2, 192.0.2.11, 192.0.2.12, 192.0.2.13, 192.0.2.14, 192.0.2.15, 192.0.2.16, 192.0.2.17, 192.0.2.18, 192.0.2.19, 192.0.2.20, 192.0.2.21"}},
+		addrForm{Name: "xff40=10.0.0.2,39-proxies", Peer: "192.0.2.1:443", XFF: []string{"10.0.0.2" + strings.Repeat(", 192.0.2.30", 39)}},
 		// what a proxy may put first when it does not know the client (the gateway takes the element verbatim)
 		addrForm{Name: "xff-unknown", Peer: "192.0.2.1:443", XFF: []string{"unknown"}},
 		addrForm{Name: "xff-ip-port", Peer: "192.0.2.1:443", XFF: []string{"10.0.0.1:51234"}},
